@@ -73,6 +73,17 @@ def run_cases(ck, res, n_cases, n_interval):
                 if j2 != j1 and r.random() < 0.7:
                     subs[j2], kinds[j2] = subs[j1], kinds[j1] + '(same object)'
             subs, kinds = tuple(subs), tuple(kinds)
+        if ci % 4 == 1:
+            # sub-conditions that still carry an `ith_unit` from earlier stand-alone use (set_impose_on is never undone by
+            # the legacy API): inside an ensemble, column i is still sub-condition i on output i
+            kinds = list(kinds)
+            for j2, sub in enumerate(subs):
+                if r.random() < 0.6:
+                    with warnings.catch_warnings():
+                        warnings.simplefilter('ignore')
+                        sub.set_impose_on(r.randrange(4))
+                    kinds[j2] += f'(ith_unit={sub.ith_unit})'
+            kinds = tuple(kinds)
         nrows = 3
         X = [enga.col(torch, [dy(r, -2, 2, 4) if m != 3 or j else dy(r, 0.25, 3, 4) for _ in range(nrows)]) for j in range(m)]
         ncols = k if ci % 7 else k + r.choice([-1, 1, 2])           # every 7th case: mismatching width
